@@ -769,12 +769,13 @@ where
             }
         };
 
-        let probability = unsafe {
-            // SAFETY: see above "SAFETY" comments on all paths that lead here.
-            right_sided_cumulative
-                .wrapping_sub(&left_sided_cumulative)
-                .into_nonzero_unchecked()
-        };
+        // The "SAFETY" comments on all paths that lead here assume that the underlying
+        // distribution has a valid (monotonic) CDF. Since the distribution is user provided code,
+        // we must not rely on this assumption for soundness: panic rather than cause UB.
+        let probability = right_sided_cumulative
+            .wrapping_sub(&left_sided_cumulative)
+            .into_nonzero()
+            .expect("Invalid underlying continuous probability distribution.");
         (symbol, left_sided_cumulative, probability)
     }
 }
@@ -847,12 +848,12 @@ where
             non_leaky + slack(next_symbol, self.model.quantizer.min_symbol_inclusive)
         };
 
-        let probability = unsafe {
-            // SAFETY: probabilities of
-            right_sided_cumulative
-                .wrapping_sub(&self.left_sided_cumulative)
-                .into_nonzero_unchecked()
-        };
+        // We cannot use `into_nonzero_unchecked` here since the underlying distribution is user
+        // provided code: an invalid (e.g., non-monotonic) CDF must lead to a panic rather than UB.
+        let probability = right_sided_cumulative
+            .wrapping_sub(&self.left_sided_cumulative)
+            .into_nonzero()
+            .expect("Invalid underlying continuous probability distribution.");
 
         let left_sided_cumulative = self.left_sided_cumulative;
         self.left_sided_cumulative = right_sided_cumulative;
